@@ -52,6 +52,22 @@ def generate(repo=None, package="oem"):
     return write_outputs(package, lean_defs, frac_defs, report)
 
 
+def load_module(dotted, read):
+    """(ast, module table) of another module of the repository, for helpers imported from it"""
+    if dotted.split(".")[0] != "typhon":
+        return None
+    rel = dotted.replace(".", "/")
+    for cand in (rel + ".py", rel + "/__init__.py"):
+        try:
+            src = read(cand)
+            tree = ast.parse(src)
+        except (OSError, SyntaxError, KeyError):
+            continue
+        normalize.annotate_literals(tree, src)
+        return tree, normalize.module_table(tree, dotted)
+    return None
+
+
 def translate(read, SPECS=SPECS, EXPECTED_RET=EXPECTED_RET):
     """read: relative path -> module text.  Returns (lean definitions, Fraction-dialect definitions, report)."""
     report = {"refused": {}, "functions": {}, "trees": {}, "notes": {}, "auto_helpers": {}}
@@ -82,7 +98,9 @@ def translate(read, SPECS=SPECS, EXPECTED_RET=EXPECTED_RET):
                 raise pm.Refusal("the module-level name is rebound after the definition")
             # spelling variants -> canonical subset (aliases, np.matmul, helper expansion, early returns, …)
             keep = {nm for mn, _, nm, _ in SPECS if mn == modname}
-            fn, helpers = normalize.prepare_function(fn, tree, modname, keep=keep, matrix=True, table=imports)
+            fn, helpers = normalize.prepare_function(fn, tree, modname, keep=keep, matrix=True, table=imports,
+                                                     load_module=lambda m_: load_module(m_, read),
+                                                     keep_targets={f"{mn}.{nm}" for mn, _, nm, _ in SPECS})
             if helpers:
                 report["auto_helpers"][key] = [f"{h} (expanded in place)" for h in helpers]
             b = pm.Builder(modname, imports, known)
